@@ -74,7 +74,8 @@ def verus_part(prop, tier, seed, tmp):
         return None
     wd = os.path.join(tmp, 'verus')
     os.makedirs(wd, exist_ok=True)
-    out = verusleg.run(os.path.join(REPO, 'src'), wd, seed=0)
+    tpl = verusleg.templates_for(prop)
+    out = verusleg.run(os.path.join(REPO, 'src'), wd, seed=0, extra_templates=tpl)
     ev = dict(status=out.status, reason=out.reason, cmd=out.cmd, wall_s=round(out.wall_s, 2), smt_ms=out.smt_ms,
               verus_version=out.version, verified_functions=out.verified, errors_total=out.errors)
     if out.status != 'ok':
@@ -95,7 +96,7 @@ def verus_part(prop, tier, seed, tmp):
         for k in (1, 2):
             wd2 = os.path.join(tmp, 'verus_seed%d' % k)
             os.makedirs(wd2, exist_ok=True)
-            o2 = verusleg.run(os.path.join(REPO, 'src'), wd2, seed=(seed or 0) * 7 + 1000 + k * 7919, log_air=False)
+            o2 = verusleg.run(os.path.join(REPO, 'src'), wd2, seed=(seed or 0) * 7 + 1000 + k * 7919, log_air=False, extra_templates=tpl)
             reruns.append(o2)
         for f in viol:
             stable = True
@@ -109,7 +110,7 @@ def verus_part(prop, tier, seed, tmp):
                 undec.append(f)
     extra = {}
     if tier == 'thorough':
-        st, vac, nchk, why = verusleg.vacuity_check(os.path.join(REPO, 'src'), os.path.join(tmp, 'verus_vac'))
+        st, vac, nchk, why = verusleg.vacuity_check(os.path.join(REPO, 'src'), os.path.join(tmp, 'verus_vac'), templates=tpl)
         extra['vacuity_guard'] = dict(status=st, functions_checked=nchk, vacuous=vac, reason=why,
                                       rule='assert(false) as first statement of every contracted body must fail')
         for k in vac:
@@ -118,7 +119,7 @@ def verus_part(prop, tier, seed, tmp):
         for k in (1, 2):
             wd3 = os.path.join(tmp, 'verus_thorough_seed%d' % k)
             os.makedirs(wd3, exist_ok=True)
-            o3 = verusleg.run(os.path.join(REPO, 'src'), wd3, seed=(seed or 0) * 13 + 500 + k * 104729, log_air=False)
+            o3 = verusleg.run(os.path.join(REPO, 'src'), wd3, seed=(seed or 0) * 13 + 500 + k * 104729, log_air=False, extra_templates=tpl)
             rel = [g for g in o3.failures if prop in g['tags']]
             seeds_ok.append(dict(seed=(seed or 0) * 13 + 500 + k * 104729, status=o3.status, verified=o3.verified, relevant_failures=len(rel)))
             for g in rel:
